@@ -49,7 +49,7 @@ def _verify_one(job):
         if getattr(c, "engine_setup", None):
             setup = c.engine_setup
         fv = FunctionVerifier(repo, c, REGISTRY, timeout_ms=timeout_ms, spec_modules=spec_modules(),
-                              findings=[f for f in findings if f.get("obligation", "").startswith(qual + "/")],
+                              findings=findings,
                               setup=setup)
         res = fv.run()
         out["results"] = [r.to_json() for r in res]
@@ -145,13 +145,14 @@ def main(argv=None):
     if a.replay:
         return replay_file(a.replay, registry, a.src)
     findings_doc = json.load(open(os.path.join(VERIF, "known_findings.json")))
-    findings = [f for f in findings_doc.get("findings", []) if f["property"] == prop]
+    all_findings = findings_doc.get("findings", [])
+    findings = [f for f in all_findings if f["property"] == prop]
     quals = [q for q, c in registry.items() if prop in c.props and (not a.only or a.only in q)]
     if not quals:
         print(f"CHECKER-ERROR: no contracts registered for {prop}")
         return 3
     timeout_ms = 10000 if a.tier == "quick" else 60000
-    jobs = [(q, a.src, timeout_ms, findings) for q in quals]
+    jobs = [(q, a.src, timeout_ms, all_findings) for q in quals]
     if a.jobs > 1 and len(jobs) > 1:
         with mp.get_context("fork").Pool(min(a.jobs, len(jobs))) as pool:
             outs = pool.map(_verify_one, jobs, chunksize=1)
@@ -195,7 +196,7 @@ def main(argv=None):
             for k in r.get("known", []) or []:
                 if k.get("still_fails") and k["id"] not in seen_known:
                     seen_known.add(k["id"])
-                    f = [f for f in findings if f["id"] == k["id"]][0]
+                    f = [f for f in all_findings if f["id"] == k["id"]][0]
                     conf = None
                     if k.get("model"):
                         kind, label = obligation_label(r["name"])
